@@ -72,6 +72,9 @@ func TestC03(t *testing.T) {
 	rec := recC03()
 	rapid.Check(t, func(t *rapid.T) {
 		c := GenCase(t, false)
+		if rapid.IntRange(0, 9).Draw(t, "withPeriod") == 0 {
+			c.PeriodMS = 10
+		}
 		if msg := runLoop(rec, "TestC03", c, "C03", false); msg != "" {
 			t.Fatalf("%s", msg)
 		}
